@@ -6,6 +6,7 @@ CONSTANTS
   Degs = {0, 1, 2}
   MaxSwitch = 0
   RecDegs = {0, 1, 2}
+  RecMax = 9
   MaxRecNodes = 2
   EmitCases = FALSE
   DesignMax = 9
